@@ -56,7 +56,7 @@ inline unsigned n_layer_classes() {
 // ICMP / ICMPv6 layers with a meaningful message type (uniform type bytes almost never select the type-specific bodies)
 inline Tins::ICMPv6* gen_icmpv6(Src& s) {
     using namespace Tins;
-    static const uint8_t T[] = {1, 2, 3, 4, 128, 129, 130, 131, 132, 133, 134, 135, 136, 137, 143, 143, 130};
+    static const uint8_t T[] = {1, 2, 3, 4, 128, 129, 130, 131, 132, 133, 134, 135, 136, 137, 143, 143, 130, 1, 3, 3};
     ICMPv6* p = new ICMPv6((ICMPv6::Types)T[s.pick(sizeof T)]);
     try {
         if (p->type() == ICMPv6::MLD2_REPORT && s.chance(70)) p->multicast_address_records(genv(s, Tag<ICMPv6::multicast_address_records_list>()));
@@ -66,7 +66,7 @@ inline Tins::ICMPv6* gen_icmpv6(Src& s) {
 }
 inline Tins::ICMP* gen_icmp(Src& s) {
     using namespace Tins;
-    static const uint8_t T[] = {0, 3, 4, 5, 8, 11, 12, 13, 14, 15, 16, 17, 18};
+    static const uint8_t T[] = {0, 3, 4, 5, 8, 11, 12, 13, 14, 15, 16, 17, 18, 3, 11, 11, 12};
     return new ICMP((ICMP::Flags)T[s.pick(sizeof T)]);
 }
 
@@ -91,6 +91,38 @@ inline uint16_t adv_len(Src& s, size_t data_size, bool spoof, unsigned maxv) {
     if (!spoof || !s.chance(20)) return (uint16_t)data_size;
     uint64_t v = s.chance(50) ? data_size + 1 + s.range(0, 3) : (data_size ? data_size - 1 - s.range(0, data_size - 1 > 3 ? 3 : data_size - 1) : 1);
     return (uint16_t)(v > maxv ? maxv : v);
+}
+
+// RFC 4884 extension structure whose Internet checksum computes to 0x0000: the last two octets of the last object's payload are
+// chosen so that the one's-complement sum of the structure is 0xffff (the corner where "no checksum" conventions bite)
+inline void icmp_ext_checksum_zero(Tins::ICMPExtensionsStructure& st) {
+    using namespace Tins;
+    ICMPExtensionsStructure::extensions_type objs = st.extensions();
+    if (objs.empty()) return;
+    ICMPExtension::payload_type pl = objs.back().payload();
+    if (pl.size() < 2 || (pl.size() & 1)) return;
+    uint32_t sum = ((uint32_t)st.version() << 12) | st.reserved();
+    for (size_t i = 0; i < objs.size(); ++i) {
+        const ICMPExtension::payload_type& p = objs[i].payload();
+        sum += (uint32_t)(p.size() + 4);
+        sum += ((uint32_t)objs[i].extension_class() << 8) | objs[i].extension_type();
+        for (size_t k = 0; k < p.size(); k += 2) sum += ((uint32_t)p[k] << 8) | (k + 1 < p.size() ? p[k + 1] : 0);
+    }
+    uint32_t w = ((uint32_t)pl[pl.size() - 2] << 8) | pl[pl.size() - 1];
+    uint32_t rest = (sum - w) % 65535;              // everything but the word we are free to choose
+    uint32_t nw = (65535 - rest) % 65535;           // rest + nw = 0 (mod 65535)
+    if (nw == 0) nw = 65535;
+    pl[pl.size() - 2] = (uint8_t)(nw >> 8);
+    pl[pl.size() - 1] = (uint8_t)nw;
+    // rebuild the list with the adjusted last object
+    ICMPExtensionsStructure fresh;
+    fresh.version(st.version());
+    fresh.reserved(st.reserved());
+    for (size_t i = 0; i + 1 < objs.size(); ++i) fresh.add_extension(objs[i]);
+    ICMPExtension last(objs.back().extension_class(), objs.back().extension_type());
+    last.payload(pl);
+    fresh.add_extension(last);
+    st = fresh;
 }
 
 inline void option_program(Tins::PDU& layer, Src& s, std::vector<std::string>& prog, bool spoof = false) {
@@ -123,6 +155,15 @@ inline void option_program(Tins::PDU& layer, Src& s, std::vector<std::string>& p
                 uint16_t code = (uint16_t)s.edgy(16);
                 if (remove) { bool r = d6->remove_option((DHCPv6::OptionTypes)code); d << "DHCPv6::remove_option(" << code << ")=" << r; }
                 else { std::vector<uint8_t> b = s.bytes(gen_len(s, 300)); { DHCPv6::option o_(code, adv_len(s, b.size(), spoof, 65535), b.begin(), b.end()); if (b.size() & 1) d6->add_option(o_); else d6->add_option(std::move(o_)); } d << "DHCPv6::add_option(" << code << "," << hex(b) << ")"; }
+            } else if (dynamic_cast<ICMPv6*>(&layer) && (static_cast<ICMPv6&>(layer).type() == ICMPv6::DEST_UNREACHABLE || static_cast<ICMPv6&>(layer).type() == ICMPv6::TIME_EXCEEDED) && !remove) {
+                // the two ICMPv6 errors that carry RFC 4884 extension objects instead of neighbour-discovery options
+                ICMPv6* e6 = static_cast<ICMPv6*>(&layer);
+                std::vector<uint8_t> b = s.bytes(gen_len(s, 64));
+                ICMPExtension ext((uint8_t)s.edgy(8), (uint8_t)s.edgy(8));
+                if (!b.empty()) ext.payload(b);
+                e6->extensions().add_extension(ext);
+                d << "ICMPv6::extensions().add_extension(" << (int)ext.extension_class() << "," << (int)ext.extension_type() << "," << hex(b) << ")";
+                if ((b.size() & 3) == 2) { icmp_ext_checksum_zero(e6->extensions()); d << " [structure checksum forced to 0]"; }
             } else if (ICMPv6* i6 = dynamic_cast<ICMPv6*>(&layer)) {
                 uint8_t code = (uint8_t)s.edgy(8);
                 if (remove) { bool r = i6->remove_option((ICMPv6::OptionTypes)code); d << "ICMPv6::remove_option(" << (int)code << ")=" << r; }
@@ -146,8 +187,11 @@ inline void option_program(Tins::PDU& layer, Src& s, std::vector<std::string>& p
                 }
             } else if (ICMP* ic = dynamic_cast<ICMP*>(&layer)) {
                 std::vector<uint8_t> b = s.bytes(gen_len(s, 64));
-                ic->extensions().add_extension(ICMPExtension((uint8_t)s.edgy(8), (uint8_t)s.edgy(8)));
-                d << "ICMP::extensions().add_extension";
+                ICMPExtension ext((uint8_t)s.edgy(8), (uint8_t)s.edgy(8));
+                if (!b.empty()) ext.payload(b);   // (an object without payload is what this branch used to add: kept for b.empty())
+                ic->extensions().add_extension(ext);
+                d << "ICMP::extensions().add_extension(" << (int)ext.extension_class() << "," << (int)ext.extension_type() << "," << hex(b) << ")";
+                if ((b.size() & 3) == 2) { icmp_ext_checksum_zero(ic->extensions()); d << " [structure checksum forced to 0]"; }
             } else {
                 return;
             }
@@ -305,7 +349,35 @@ inline Built build_packet(Src& s, Ctx& ctx, const BuildOpts& o = BuildOpts()) {
     for (PDU* p = b.pdu.get(); p; p = p->inner_pdu()) {
         if (s.chance(70)) apply_setters(*p, s, o, b.program);
         if (o.allow_option_programs && s.chance(50)) option_program(*p, s, b.program, o.spoofed_option_lengths);
+        else if (o.allow_option_programs) {
+            // the message types that carry RFC 4884 extension objects get their object program in any case
+            const ICMP* ic = dynamic_cast<const ICMP*>(p);
+            const ICMPv6* i6 = dynamic_cast<const ICMPv6*>(p);
+            if ((ic && (ic->type() == ICMP::DEST_UNREACHABLE || ic->type() == ICMP::TIME_EXCEEDED || ic->type() == ICMP::PARAM_PROBLEM)) ||
+                (i6 && (i6->type() == ICMPv6::DEST_UNREACHABLE || i6->type() == ICMPv6::TIME_EXCEEDED)))
+                option_program(*p, s, b.program, o.spoofed_option_lengths);
+        }
         enforce_capacity(*p, ctx, b.program);
+    }
+    // quoted datagram behind an RFC 4884 extension structure: sizes around the minimum (128) and around what the one-octet
+    // length attribute can express (255 words of 4 / 8 octets); decided by the payload's own first octet (no further choice)
+    for (PDU* p = b.pdu.get(); p; p = p->inner_pdu()) {
+        ICMP* ic = dynamic_cast<ICMP*>(p);
+        ICMPv6* i6 = dynamic_cast<ICMPv6*>(p);
+        bool ext = ic ? ic->has_extensions() : (i6 ? i6->has_extensions() : false);
+        RawPDU* raw = ext ? dynamic_cast<RawPDU*>(p->inner_pdu()) : nullptr;
+        if (!raw || raw->payload().empty()) continue;
+        unsigned sel = raw->payload()[0];
+        if (sel >= 96) continue;
+        static const uint16_t V4[6] = {128, 132, 1016, 1020, 1024, 127}, V6[6] = {128, 136, 2032, 2040, 2048, 127};
+        size_t want = (ic ? V4 : V6)[sel % 6];
+        RawPDU::payload_type pl = raw->payload();
+        size_t had = pl.size();
+        pl.resize(want);
+        for (size_t i = had; i < want; ++i) pl[i] = (uint8_t)(i * 13 + sel);
+        raw->payload(pl);
+        b.program.push_back("quoted datagram resized to " + std::to_string(want) + " octets");
+        ctx.label("rfc4884-boundary-size");
     }
     // an outermost IP with source 0.0.0.0 makes serialize() consult the host routing table (documented): excluded by construction
     if (IP* root = dynamic_cast<IP*>(b.pdu.get())) {
